@@ -217,28 +217,32 @@ class R:
     def finite(self):
         return self.special is None
 
-    def _bin(self, o, f):
+    def _bin(self, o, op):
         try:
             o = R.lift(o)
         except TypeError:
             return NotImplemented
         if self.special or o.special:
-            return _special_arith(self, o, f)
-        return R(f(self.t, o.t))
+            return _special_arith(self, o, op)
+        if op == 'add':
+            return R(self.t + o.t)
+        if op == 'sub':
+            return R(self.t - o.t)
+        return R(self.t * o.t)
 
     def __add__(self, o):
-        return self._bin(o, lambda a, b: a + b)
+        return self._bin(o, 'add')
 
     __radd__ = __add__
 
     def __sub__(self, o):
-        return self._bin(o, lambda a, b: a - b)
+        return self._bin(o, 'sub')
 
     def __rsub__(self, o):
         return R.lift(o) - self
 
     def __mul__(self, o):
-        return self._bin(o, lambda a, b: a * b)
+        return self._bin(o, 'mul')
 
     __rmul__ = __mul__
 
@@ -364,22 +368,39 @@ INF = R(None, 'inf')
 NINF = R(None, '-inf')
 
 
+def _sgn(x):
+    """+1 / -1 / 0 for a finite R (forks if unknown)."""
+    if bool(cmp(x.t, '==')):
+        return 0
+    return 1 if bool(cmp(x.t, '>')) else -1
+
+
 def _special_arith(a, b, f):
     if a.special == 'nan' or b.special == 'nan':
         return NAN
-    # infinities: handle the common cases, otherwise NaN
+    inf = {1: INF, -1: NINF}
+    sa = {'inf': 1, '-inf': -1}.get(a.special)
+    sb = {'inf': 1, '-inf': -1}.get(b.special)
     if f == 'div':
-        if a.special and b.special:
+        if sa and sb:
             return NAN
-        if b.special:
+        if sb:
             return R.lift(0)
-        # a is +-inf, b finite
-        sb = b.t.sign()
-        if sb in ('+', '0+'):
-            return a
-        if sb in ('-', '0-'):
-            return -a
-        return a if bool(cmp(b.t, '>')) else -a
+        s = _sgn(b)
+        return inf[sa * s] if s else inf[sa]
+    if f in ('add', 'sub'):
+        if f == 'sub' and sb:
+            sb = -sb
+        if sa and sb:
+            return inf[sa] if sa == sb else NAN
+        return inf[sa or sb]
+    if f == 'mul':
+        if sa and sb:
+            return inf[sa * sb]
+        s = _sgn(b if sa else a)
+        if s == 0:
+            return NAN
+        return inf[(sa or sb) * s]
     raise Unsupported('arithmetic on infinities')
 
 
